@@ -35,6 +35,15 @@ func main() {
 	lean := flag.Bool("lean", false, "replay without attaching scenario and trace")
 	raceLog := flag.String("racelog", "", "GORACE log_path prefix to watch")
 	flag.Parse()
+	if exe, err := os.Executable(); err == nil {
+		if data, err := os.ReadFile(exe + ".sites"); err == nil {
+			for _, n := range strings.Split(string(data), "\n") {
+				if n != "" {
+					sim.RegSite(n)
+				}
+			}
+		}
+	}
 	sim.InstallHooks()
 	out := bufio.NewWriter(os.Stdout)
 	defer out.Flush()
